@@ -272,4 +272,128 @@ theorem splitLine_spec (buf : Bytes) (len : Nat) (sep : Bytes) (h : len + 1 ≤ 
   · exact ⟨hs.pos, hs.blen, by rw [ha]; have := hs.pos; simp; omega, Or.inl hs.dle, hn⟩
   · have := hs.pos; omega
 
+
+
+/-! ### `decode_filename` (sort file) and `decode` (xattr map file) -/
+
+theorem dfLoop_safe (k : Nat) : ∀ fuel (buf : Bytes) src dst, buf[k]? = some 0 → dst < src → src ≤ k → k - src + 1 ≤ fuel →
+    (dfLoop fuel buf src dst).safe := by
+  intro fuel
+  induction fuel with
+  | zero => intro buf src dst _ _ _ h; omega
+  | succ f ih =>
+    intro buf src dst hk hd hs hf
+    have hklt := getElem?_lt hk
+    obtain ⟨c, hc⟩ := get_some (buf := buf) (i := src) (by omega)
+    simp only [dfLoop, hc]
+    refine safe_ite (fun _ => by trivial) (fun hz => ?_)
+    have hne : src ≠ k := by intro e; subst e; rw [hk] at hc; cases hc; simp at hz
+    obtain ⟨e, he⟩ := get_some (buf := buf) (i := src + 1) (by omega)
+    refine safe_ite (fun _ => ?_) (fun _ => ?_)
+    · simp only [he]
+      refine safe_ite (fun _ => by trivial) (fun _ => ?_)
+      obtain ⟨b, hb⟩ := wr_some (buf := buf) (i := dst) 0 (by omega)
+      simp only [hb]; trivial
+    · refine safe_ite (fun _ => ?_) (fun _ => ?_)
+      · simp only [he]
+        refine safe_ite (fun hesc => ?_) (fun _ => by trivial)
+        obtain ⟨b, hb⟩ := wr_some (buf := buf) (i := dst) e (by omega)
+        simp only [hb]
+        obtain ⟨_, _, wo⟩ := wr_spec hb
+        have hne2 : src + 1 ≠ k := by
+          intro e'; rw [e', hk] at he; cases he
+          rcases hesc with h | h <;> simp at h
+        exact ih b (src + 2) (dst + 1) (by rw [wo k (by omega)]; exact hk) (by omega) (by omega) (by omega)
+      · obtain ⟨b, hb⟩ := wr_some (buf := buf) (i := dst) c (by omega)
+        simp only [hb]
+        obtain ⟨_, _, wo⟩ := wr_spec hb
+        exact ih b (src + 1) (dst + 1) (by rw [wo k (by omega)]; exact hk) (by omega) (by omega) (by omega)
+
+/-- `decode_filename` on any NUL-terminated line: reads stop at the terminator, stores stay behind the read cursor -/
+theorem decodeFilename_safe (buf : Bytes) (k : Nat) (hk : buf[k]? = some 0) : (decodeFilename buf).safe := by
+  have hklt := getElem?_lt hk
+  unfold decodeFilename
+  obtain ⟨c, hc⟩ := get_some (buf := buf) (i := 0) (by omega)
+  simp only [hc]
+  refine safe_ite (fun hq => ?_) (fun _ => by trivial)
+  have : 0 ≠ k := by intro e; subst e; rw [hk] at hc; cases hc; simp at hq
+  exact dfLoop_safe k (buf.length + 1) buf 1 0 hk (by omega) (by omega) (by omega)
+
+theorem xdLoop_spec (buf : Bytes) (endIdx n : Nat) (hn : buf[n]? = some 0) (hen : endIdx ≤ n) : ∀ fuel v acc, endIdx - v + 1 ≤ fuel →
+    (xdLoop buf endIdx fuel v acc).safe ∧ ∀ out, xdLoop buf endIdx fuel v acc = .ok out → out.length ≤ acc.length + (endIdx - v) := by
+  have hnlt := getElem?_lt hn
+  have oct_ne : ∀ {i : Nat} {c : UInt8}, buf[i]? = some c → isOct c = true → i ≠ n := by
+    intro i c hc ho e; subst e; rw [hn] at hc; cases hc; simp [isOct] at ho
+  intro fuel
+  induction fuel with
+  | zero => intro v acc h; omega
+  | succ f ih =>
+    intro v acc hf
+    simp only [xdLoop]
+    by_cases hge : v ≥ endIdx
+    · simp only [hge, if_true]; exact ⟨trivial, fun out h => by cases h; simp⟩
+    · simp only [hge, if_false]
+      obtain ⟨c, hc⟩ := get_some (buf := buf) (i := v) (by omega)
+      simp only [hc]
+      have step : ∀ (v' : Nat) (x : UInt8), v + 1 ≤ v' →
+          (xdLoop buf endIdx f v' (x :: acc)).safe ∧ ∀ out, xdLoop buf endIdx f v' (x :: acc) = .ok out →
+            out.length ≤ acc.length + (endIdx - v) := by
+        intro v' x hv
+        obtain ⟨s1, s2⟩ := ih v' (x :: acc) (by omega)
+        exact ⟨s1, fun out h => by have := s2 out h; simp at this; omega⟩
+      by_cases hb : c.toNat = 92
+      · simp only [hb, if_true]
+        obtain ⟨e, he⟩ := get_some (buf := buf) (i := v + 1) (by omega)
+        simp only [he]
+        by_cases h1 : e.toNat = 92 ∨ e.toNat = 34
+        · simp only [h1, if_true]; exact step (v + 2) e (by omega)
+        · simp only [h1, if_false]
+          by_cases ho : isOct e = true
+          · simp only [ho, if_true]
+            have := oct_ne he ho
+            obtain ⟨e2, he2⟩ := get_some (buf := buf) (i := v + 2) (by omega)
+            simp only [he2]
+            by_cases ho2 : isOct e2 = true
+            · simp only [ho2, if_true]
+              have := oct_ne he2 ho2
+              obtain ⟨e3, he3⟩ := get_some (buf := buf) (i := v + 3) (by omega)
+              simp only [he3]
+              by_cases ho3 : isOct e3 = true
+              · simp only [ho3, if_true]; exact step (v + 4) _ (by omega)
+              · simp only [ho3, if_false]; exact step (v + 3) _ (by omega)
+            · simp only [ho2, if_false]; exact step (v + 2) _ (by omega)
+          · simp only [ho, if_false]; exact step (v + 1) c (by omega)
+      · simp only [hb, if_false]; exact step (v + 1) c (by omega)
+
+/-- `decode` of the xattr map reader on any NUL-terminated value: inside `value[0 .. strlen]`, output within `size + 1` -/
+theorem xattrDecode_safe (buf : Bytes) (hne : buf ≠ []) (hlast : buf[buf.length - 1]? = some 0) : (xattrDecode buf).safe := by
+  have hlen : 0 < buf.length := by cases buf with | nil => exact absurd rfl hne | cons _ _ => simp
+  unfold xattrDecode
+  simp only []
+  refine safe_ite (fun _ => by trivial) (fun hs0 => ?_)
+  obtain ⟨c0, hc0⟩ := get_some (buf := buf) (i := 0) (by omega)
+  obtain ⟨c1, hc1⟩ := get_some (buf := buf) (i := 1) (by omega)
+  simp only [hc0, hc1]
+  refine safe_ite (fun _ => ?_) (fun _ => ?_)
+  · exact hexDecode_safe buf _ 2 _ [] (by omega)
+  · refine safe_ite (fun _ => ?_) (fun _ => ?_)
+    · exact base64Decode_safe buf 2 _ _ (by omega)
+    · obtain ⟨l, hl⟩ := get_some (buf := buf) (i := buf.length - 1 - 1) (by omega)
+      simp only [hl]
+      obtain ⟨x1, x2⟩ := xdLoop_spec buf
+        (if buf.length - 1 > 1 ∧ c0.toNat = 34 ∧ l.toNat = 34 then buf.length - 1 - 1 else buf.length - 1) (buf.length - 1) hlast
+        (by split <;> omega) (buf.length - 1 + 2)
+        (if buf.length - 1 > 1 ∧ c0.toNat = 34 ∧ l.toNat = 34 then 1 else 0) [] (by split <;> omega)
+      cases hx : xdLoop buf (if buf.length - 1 > 1 ∧ c0.toNat = 34 ∧ l.toNat = 34 then buf.length - 1 - 1 else buf.length - 1)
+          (buf.length - 1 + 2) (if buf.length - 1 > 1 ∧ c0.toNat = 34 ∧ l.toNat = 34 then 1 else 0) [] with
+      | oob => rw [hx] at x1; exact (x1 : False).elim
+      | spin => rw [hx] at x1; exact (x1 : False).elim
+      | fail c => trivial
+      | ok out =>
+        have hb := x2 out hx
+        simp only []
+        refine safe_ite (fun hgt => ?_) (fun _ => by trivial)
+        simp at hb
+        split at hb <;> omega
+
 end Sqfs.ParseTotal
